@@ -527,6 +527,12 @@ def gen_case_concat(rng, tier):
     if r < 0.35:
         return dict(heap=heap, doms=[doms[0]], binders=[cb], sel=[conc], cond=None, form='entity',
                     list_items=rng.random() < 0.6)
+    if r < 0.45 and not flat_inside:
+        # the concatenation selected NEXT TO another variable (set_of), that variable filtered by a condition of its own
+        cond = ['cmp', rng.choice(OPS), ['map', ['f', F[rng.choice('ab')]], ['var', 2]], ['lit', rng.randint(0, 2)]]
+        sel = [['var', 2], conc] if rng.random() < 0.5 else [conc, ['var', 2]]
+        return dict(heap=heap, doms=doms, binders=[cb, ['var', 2]], sel=sel, cond=cond if rng.random() < 0.8 else None, form='set_of',
+                    list_items=rng.random() < 0.6)
     item = ['map', ['f', F[rng.choice('ab')]], ['var', 2]]
     cond = ['in', item, conc] if rng.random() < 0.5 else ['contains', conc, item]
     if rng.random() < 0.4:
@@ -542,6 +548,18 @@ def gen_case_concat(rng, tier):
             cond2 = ['not', cond2, 'fn']
         cond = ['and', cond, cond2, rng.choice(['fn', 'args'])]
         binders = [cb, ['concat', 7, 1, ct2], ['var', 2]]
+    if not flat_inside and rng.random() < 0.2 and doms[0][1]:
+        # the SAME concatenation tested twice, a condition on its own parent variable in between: the second test reads the
+        # value the first one bound (also when the first one is served from a result cache on re-evaluation)
+        item2 = ['map', ['f', F[rng.choice('ab')]], ['var', 2]]
+        cond2 = ['in', item2, conc] if rng.random() < 0.5 else ['contains', conc, item2]
+        if rng.random() < 0.6:
+            cond2 = ['not', cond2, 'fn']
+        mid = ['cmp', rng.choice(OPS), ['map', ['f', F[rng.choice('ab')]], ['var', 1]], ['lit', rng.randint(0, 2)]]
+        pre = ['cmp', '>=', ['map', ['f', F['a']], ['var', 2]], ['lit', 0]]
+        cond = ['and', ['and', ['and', pre, cond, 'fn'], mid, 'fn'], cond2, 'fn']
+        return dict(heap=heap, doms=doms, binders=binders + [['var', 1]], sel=[['var', 2]], cond=cond,
+                    form=rng.choice(['entity', 'set_of']), list_items=rng.random() < 0.6)
     form = 'entity' if rng.random() < 0.6 else 'set_of'
     if not flat_inside and rng.random() < 0.25 and doms[0][1]:
         # the parent variable is selected too: the concatenation does not bind it, it ranges over its whole domain
